@@ -5,6 +5,7 @@ runs both against it.
 -/
 import EnumToolsModel.Lemmas.FromStr
 import EnumToolsModel.Thm.C03
+import EnumToolsModel.Lemmas.TemplatesEq
 namespace ET.Thm
 
 /-- the specification through the derive's value list -/
@@ -125,5 +126,12 @@ theorem C04_fromStr_of_asStr (D : Derive) (_h : D.WF) (hd : D.sem.names.Pairwise
 example : exD1.WF ∧ fromStr exD1 .table [98, 98] = .ok (some (-5)) ∧ fromStr exD1 .table [66] = .ok none
     ∧ fromStr exD1 .match [97] = .ok none ∧ fromStr exD2 .table [67] = .ok (some 255) := by
   refine ⟨exD1_WF, by decide, by decide, by decide, by decide⟩
+
+/-- `from_str` / `FromStr` as the source is written now (`Generated/Templates.lean`), in every resolved mode, for every string -/
+theorem C04_source (D : Derive) (tg : Target) (md : Modes) (h : D.WF) (s : Name) :
+    (md.fromStrFn ≠ .auto → T.fromStrFn D tg md s = .ok (spec.fromStr D.sem s)) ∧
+    (md.fromStrTrait ≠ .auto → T.fromStrTrait D tg md s = .ok (spec.fromStr D.sem s)) :=
+  ⟨fun hm => by rw [T.fromStrFn_eq D tg md h hm s]; exact C04_fromStr D h _ s,
+   fun hm => by rw [T.fromStrTrait_eq D tg md h hm s]; exact C04_fromStr D h _ s⟩
 
 end ET.Thm
